@@ -33,6 +33,7 @@ func init() {
 			Trusted:     commonTrusted,
 		},
 		Mutants: []Mutant{
+			{Name: "len counts runes for strings (agent seed C14/4)", File: "default.go", Old: "\t\t\tcase reflect.Array, reflect.Chan, reflect.Slice, reflect.Map, reflect.String:\n\t\t\t\treturn reflect.ValueOf(expression.Len())", New: "\t\t\tcase reflect.Array, reflect.Chan, reflect.Slice, reflect.Map:\n\t\t\t\treturn reflect.ValueOf(expression.Len())\n\t\t\tcase reflect.String:\n\t\t\t\treturn reflect.ValueOf(len([]rune(expression.String())))", Rule: "C14.table"},
 			{Name: "argument vector shared between nested calls (agent seed C14/2)", File: "eval.go", Old: "\targValues := make([]reflect.Value, numArgs)\n", New: "\tif cap(st.argBuf) < numArgs {\n\t\tst.argBuf = make([]reflect.Value, numArgs, numArgs+4)\n\t}\n\targValues := st.argBuf[:numArgs]\n", More: []Edit{{File: "eval.go", Old: "\tcontext reflect.Value\n}", New: "\tcontext reflect.Value\n\targBuf  []reflect.Value\n}"}}, Rule: "C14.count"},
 			{Name: "NumOfArguments counts the piped value even when a slot consumes it", File: "func.go", Old: "\tnum := len(a.args.Exprs)\n\tif a.pipedVal != nil && !a.args.HasPipeSlot {", New: "\tnum := len(a.args.Exprs)\n\tif a.pipedVal != nil {", Rule: "C14.shift"},
 			{Name: "Get does not shift the index for an implicit piped argument", File: "func.go", Old: "\t\tif argumentIndex == 0 {\n\t\t\treturn *a.pipedVal\n\t\t}\n\t\t// call has an implicit first argument, so we adjust the\n\t\t// index before looking it up in the parsed a.args slice\n\t\targumentIndex--", New: "\t\tif argumentIndex == 0 {\n\t\t\treturn *a.pipedVal\n\t\t}", Rule: "C14.shift"},
@@ -751,5 +752,53 @@ func c14table(c *an.Ctx) {
 	}
 	if a, b := table["slice"], table["array"]; a != nil && b != nil {
 		c.Check(bound(a) == bound(b), "C14.table", "builtin:slice=array", a.Pos(), "slice and array share one implementation", "slice and array are bound to different implementations")
+	}
+	// len is documented as Go's len(): for strings, arrays, slices, maps and channels every answer is
+	// reflect.Value.Len() of the (dereferenced) argument, for structs NumField()
+	if f := p.Fn(`init/"len"`); f != nil {
+		info := f.Info()
+		nRet, bad := 0, ""
+		an.InspectOwn(f, func(n ast.Node) bool {
+			cc, ok := n.(*ast.CaseClause)
+			if !ok || len(cc.List) == 0 {
+				return true
+			}
+			kinds := ""
+			for _, e := range cc.List {
+				kinds += an.Str(e) + " "
+			}
+			if !strings.Contains(kinds, "reflect.") {
+				return true
+			}
+			for _, st := range cc.Body {
+				ret, ok := st.(*ast.ReturnStmt)
+				if !ok || len(ret.Results) != 1 {
+					continue
+				}
+				nRet++
+				_ = info
+				norm := an.Norm(f, ret.Results[0]) // locals resolved: n := v.Len(); return reflect.ValueOf(n) is the same
+				got := ""
+				switch {
+				case strings.HasPrefix(norm, "reflect.ValueOf(") && strings.HasSuffix(norm, ".Len())"):
+					got = "(reflect.Value).Len"
+				case strings.HasPrefix(norm, "reflect.ValueOf(") && strings.HasSuffix(norm, ".NumField())"):
+					got = "(reflect.Value).NumField"
+				}
+				want := "(reflect.Value).Len"
+				if strings.TrimSpace(kinds) == "reflect.Struct" {
+					want = "(reflect.Value).NumField"
+				}
+				if got != want {
+					bad = fmt.Sprintf("for kinds %sthe len built-in returns %s instead of reflect.ValueOf(<argument>.%s())", kinds, an.Str(ret.Results[0]), strings.TrimPrefix(want, "(reflect.Value)."))
+				}
+			}
+			return true
+		})
+		if nRet == 0 {
+			c.Undecided("C14.table", "builtin:len/go-len", f.Pos(), "no per-kind return found in the len built-in")
+		} else {
+			c.Check(bad == "", "C14.table", "builtin:len/go-len", f.Pos(), "len answers with Go's len (reflect.Value.Len) for every sized kind", bad+": len() no longer computes what Go's len computes")
+		}
 	}
 }
